@@ -300,7 +300,10 @@ def nested_family(r):
         inner = m.Router(("/{tenant:int}/items/{item:int}", ep("item")), ("/{tenant}/about", ep("about")), ("/{rest:any}", ep("inner-any")))
         outer = m.Router(("/static/{p:any}", ep("static")), ("/{tenant}/{rest:any}", inner))
         mounted = m.Router(("/v1/{_:any}", m.Subpaths(("/v1", m.Router(("/users/{id:int}", ep("user")), ("/{rest:any}", ep("v1-any")))))), ("/{x}", ep("top")))
+        deep = m.Router(("/repos/{path:any}/commits/{n:int}", ep("commit")), ("/x/{a:any}/y/{b:any}/z", ep("two-any")), ("/{rest:any}", ep("deep-any")))
         cases = [
+            (deep, "/repos/org/proj/commits/3", ("commit", {"path": "org/proj", "n": 3})), (deep, "/repos/a/commits/b/commits/12", ("commit", {"path": "a/commits/b", "n": 12})),
+            (deep, "/repos/org/commits/x", ("deep-any", {"rest": "repos/org/commits/x"})), (deep, "/repos//commits/0", ("commit", {"path": "", "n": 0})),
             (outer, "/12/items/7", ("item", {"tenant": 12, "item": 7})), (outer, "/acme/about", ("about", {"tenant": "acme"})), (outer, "/acme/items/x", ("inner-any", {"rest": "acme/items/x"})),
             (outer, "/static/a/b", ("static", {"p": "a/b"})), (outer, "/007/items/010", ("item", {"tenant": 7, "item": 10})),
             (mounted, "/v1/users/7", ("user", {"id": 7})), (mounted, "/v1/other/x", ("v1-any", {"rest": "other/x"})), (mounted, "/v1/users/x7", ("v1-any", {"rest": "users/x7"})), (mounted, "/home", ("top", {"x": "home"})),
